@@ -194,7 +194,7 @@ def _arr(v, dtype='d'):
 def _impl_fit(c):
     from pydl.pydlutils.trace import func_fit
     try:
-        res, yfit = func_fit(_arr(c['x']), _arr(c['y']), c['ncoeff'], invvar=_arr(c.get('invvar')),
+        res, yfit = func_fit(_arr(c['x']), _arr(c['y'], c.get('ydtype', 'd')), c['ncoeff'], invvar=_arr(c.get('invvar')),
                              function_name=c['func'], ia=_arr(c.get('ia'), bool), inputans=_arr(c.get('inputans')),
                              inputfunc=_arr(c.get('inputfunc')))
         return {'ok': {'res': [float(v) for v in res], 'yfit': [float(v) for v in np.atleast_1d(yfit)]}}
@@ -430,6 +430,14 @@ def _gen_fit_case(rng, kind=None):
         for i in rng.sample(range(n), nzero):
             w[i] = 0.0
         c['invvar'] = w
+    if rng.random() < 0.15:
+        # data stored as integer counts or in single precision: the same numbers, the coefficients are still real numbers
+        if rng.random() < 0.5:
+            c['y'] = [float(round(v * 7)) for v in c['y']]
+            c['ydtype'] = rng.choice(['i8', 'i4'])
+        else:
+            c['y'] = [float(np.float32(v)) for v in c['y']]
+            c['ydtype'] = 'f4'
     if c['invvar'] is not None and rng.random() < 0.3:
         # inverse variances in the units of the data: fluxes of 1e6 have weights of 1e-12 (powers of two: exact rescaling)
         sc = 2.0 ** rng.choice([-60, -40, -27, 20, 40])
@@ -744,7 +752,7 @@ def _fit_oracle(ctx, c, impl):
         ctx.count('oracle:fit:zero-weight')
     # exact data are recovered
     c0 = np.where(ia, np.array([((7 * k + 3) % 11 - 5) / 2.0 for k in range(c['ncoeff'])]), ans)
-    c3 = dict(c, y=[float(v) for v in A @ c0])
+    c3 = dict(c, y=[float(v) for v in A @ c0], ydtype='d')
     impl3 = _impl_fit(c3)
     if 'err' in impl3 or (np.abs(np.array(impl3['ok']['res']) - c0) > tol * max(1.0, float(np.abs(c0).max()))).any():
         ctx.violate('fit:exact', 'exact combination %s not recovered: %s' % (c0.tolist(), impl3), c)
